@@ -16,7 +16,8 @@
 EXTENDS Integers, Sequences, FiniteSets, TLC
 
 CONSTANTS MaxCommits, MaxPersists, MaxClock,
-          DevNoEmptyCheck   \* TRUE = repair.search before the fix (index -1 when no state found)
+          DevNoEmptyCheck,  \* TRUE = repair.search before the fix (index -1 when no state found)
+          DevSearchLo       \* TRUE = binary search starts above the last state known to be bad
 
 VARIABLES file, cur, merged, clock, status, view, refused, npersist
 
@@ -99,10 +100,34 @@ Bin(g, lo, hi) == IF lo < hi - 1
                        IF mid >= g THEN Bin(g, lo, mid) ELSE Bin(g, mid, hi)
                   ELSE hi
 Search(n, g) == LET b == Back(n, g, 0, 0, 1) IN
-                IF b[1] < 0 THEN b[1] ELSE Bin(g, b[2], b[1])
+                IF b[1] < 0 THEN b[1] ELSE Bin(g, b[2] + (IF DevSearchLo THEN 1 ELSE 0), b[1])
 \* with prev = 0 initially and the newest state good the code returns index 0 directly
 SearchCorrect == \A n \in 0..12 : \A g \in 0..n :
                     Search(n, g) = (IF g < n THEN g ELSE -1)
+
+\* Pages written out of order (TraceDurable!TrHole): intact looking state records newer
+\* than the newest undamaged state may be good or bad in any mixture (G = set of good
+\* indexes, everything from index g on is good). The search then does not promise the
+\* newest good state, but what it returns is good and never older than g.
+RECURSIVE BackS(_, _, _, _, _)
+BackS(n, G, i, prev, skip) ==
+    LET done == i >= n
+        i2 == IF done THEN n - 1 ELSE i
+    IN  IF done /\ i2 = prev THEN <<-1, prev>>
+        ELSE IF i2 \in G THEN <<i2, prev>>
+        ELSE IF done THEN <<-1, prev>>
+        ELSE BackS(n, G, i2 + skip, i2, skip * 2)
+RECURSIVE BinS(_, _, _)
+BinS(G, lo, hi) == IF lo < hi - 1
+                   THEN LET mid == lo + (hi - lo) \div 2 IN
+                        IF mid \in G THEN BinS(G, lo, mid) ELSE BinS(G, mid, hi)
+                   ELSE hi
+SearchS(n, G) == LET b == BackS(n, G, 0, 0, 1) IN
+                 IF b[1] < 0 THEN b[1] ELSE BinS(G, b[2] + (IF DevSearchLo THEN 1 ELSE 0), b[1])
+SearchMixedOK == \A n \in 1..8 : \A g \in 0..(n-1) : \A X \in SUBSET (0..(g-1)) :
+                    LET G == X \cup (g..(n-1)) IN
+                    (g - 1) \notin X => SearchS(n, G) \in G /\ SearchS(n, G) <= g
+ASSUME DevSearchLo \/ SearchMixedOK
 
 \* states of the damaged file that lie completely inside it, newest first
 Repair == /\ status = "crashed" /\ refused
